@@ -17,6 +17,7 @@ TEXT = {
     "serving-mismatch": "the keys that authenticate are not exactly those of the most recent configuration that loaded",
     "listening-mismatch": "the addresses that listen are not exactly those of the most recent configuration that loaded",
     "leftover-runner": "a runConfig goroutine of a failed or stopped configuration is still running",
+    "connection-unhandled": "a connection accepted on an address of the configuration was never handled by the server",
 }
 ASSUME = [
     "every scenario uses its own ports outside the ephemeral range; only the server under test can hold them",
